@@ -484,6 +484,7 @@ func (w *World) adoptSpawned(point string, g uint64) {
 	if !w.pointEnabled[pi] {
 		return
 	}
+	addi64(&w.pointHits[pi], 1)
 	k := addi32(&w.spawnSeq[pi], 1)
 	t := &Task{W: w, Name: fmt.Sprintf("%s#%d", strings.TrimPrefix(point, "auto:"), k), goid: g, wake: make(chan struct{}), done: make(chan struct{}), daemon: true, spawned: true}
 	sti32(&t.state, stRunning)
